@@ -50,7 +50,8 @@ CLAIMED = {
          "real code that the rewritten stores are exactly the declaratively out-of-date ones and that a repeated run does nothing (in-memory and bundled "
          "file stores). C05_stale_check_any_schedule/_result: every engine schedule of the stale check computes isStale and asks each store at most once. "
          "C05_end_to_end(_only_stale): under every schedule exactly the out-of-date stored values are written, up-to-date ones are never recomputed, and "
-         "nothing is out of date afterwards.", "4/C05"),
+         "nothing is out of date afterwards. C05_repeated_run_nothing: the graph the engine gets for a run repeated immediately with no output is empty, so "
+         "in every reachable state nothing has begun (no call, no read, no write).", "4/C05"),
  "C06": ("proof", "Lean 4 proof (inductive invariants) + trace refinement check",
          "Nothing reachable from a failed node is ever begun; first_node_error is exactly the first recorded failure and is set iff a call failed "
          "(C06_contain, C06_error, C06_error_real, C06_raises_iff, C06_failed_not_ok); C06_fine: the same with the failure_lock block as "
